@@ -381,14 +381,13 @@ fn l_put_body<const NT: usize, const NH: usize>(k: usize) {
     }
 }
 
-/// Queries agree with the bit-level model (C04, lower part).
-fn l_queries_body<const NT: usize, const NH: usize>() {
+/// Queries agree with the bit-level model (C04, lower part): per-frame and per-huge-frame.
+fn l_queries_frame_body<const NT: usize, const NH: usize>() {
     let st = LState::<NT, NH>::any();
     let frames = any_frames::<NT>();
     let pre = st.snapshot();
     assume_inv(&pre, frames);
-    let lower = st.lower(frames);
-    // per-frame query and is_free for a symbolic order
+    let lower = st.lower_exact(frames, NH);
     let f: usize = kani::any();
     kani::assume(f < frames);
     assume_block_instances(&pre, f, 0);
@@ -398,34 +397,38 @@ fn l_queries_body<const NT: usize, const NH: usize>() {
     vassert!("C04", lower.is_free(FrameId(f), 0) == pre.small_free(f, 0), "is_free(order 0) agrees with the frame's status");
     let sh = lower.stats_at(FrameId(f), HUGE_ORDER);
     vassert!("C04", sh.free_frames == pre.count(h) && sh.free_huge == (pre.count(h) == HUGE_FRAMES) as usize, "per-huge-frame query reports the huge frame's free count");
-    let st_ = lower.stats_at(FrameId(f), TREE_ORDER);
-    let t = f / TREE_FRAMES;
-    let mut tfree = 0;
-    let mut thuge = 0;
+    vassert!("C04", unchanged(&pre, &st.snapshot()), "queries change nothing");
+}
+/// Per-tree and global statistics are the sums over the huge-frame counters.
+fn l_queries_stats_body<const NT: usize, const NH: usize>() {
+    let st = LState::<NT, NH>::any();
+    let frames = any_frames::<NT>();
+    let pre = st.snapshot();
+    assume_inv(&pre, frames);
+    let lower = st.lower_exact(frames, NH);
     let mut all = 0;
     let mut allhuge = 0;
     let mut alltrees = 0;
     for i in 0..NT {
         let mut tf = 0;
+        let mut th = 0;
         for j in 0..TREE_HUGE {
             let c = pre.count(i * TREE_HUGE + j);
             tf += c;
-            all += c;
             if c == HUGE_FRAMES {
-                allhuge += 1;
-                if i == t {
-                    thuge += 1;
-                }
+                th += 1;
             }
         }
-        if i == t {
-            tfree = tf;
-        }
+        all += tf;
+        allhuge += th;
         if tf == TREE_FRAMES {
             alltrees += 1;
         }
+        let t = lower.stats_at(FrameId(i * TREE_FRAMES), TREE_ORDER);
+        // (with one huge frame per tree the tree order IS the huge order and `stats_at` answers
+        // the per-huge-frame query, which leaves free_trees at 0: not compared in that geometry)
+        vassert!("C04", t.free_frames == tf && t.free_huge == th && (TREE_ORDER == HUGE_ORDER || t.free_trees == (tf == TREE_FRAMES) as usize), "per-tree query reports the tree's free frames and free huge frames");
     }
-    vassert!("C04", st_.free_frames == tfree && st_.free_huge == thuge && st_.free_trees == (tfree == TREE_FRAMES) as usize, "per-tree query reports the tree's free frames and free huge frames");
     let s = lower.stats();
     vassert!("C04", s.free_frames == all && s.free_huge == allhuge && s.free_trees == alltrees, "exact statistics are the sums over the huge-frame counters");
     vassert!("C04", unchanged(&pre, &st.snapshot()), "queries change nothing");
@@ -991,8 +994,13 @@ fn l_crash_body(k: usize, op: u8) {
 // @h props=C04,C09,C18 tier=quick geom=1 tgeom=2 panics=C09 mem=C18
 #[kani::proof]
 #[kani::unwind(18)]
-fn l_queries() {
-    l_queries_body::<2, NH2>()
+fn l_queries_frame() {
+    l_queries_frame_body::<1, NH1>()
+}
+#[kani::proof]
+#[kani::unwind(18)]
+fn l_queries_stats() {
+    l_queries_stats_body::<2, NH2>()
 }
 #[kani::proof]
 #[kani::unwind(18)]
